@@ -139,6 +139,34 @@ def api_level(chk, tier):
                 chk.violation(dict(obligation='C18.bounded.RAWCHARS_byte_escape_denotes_that_byte', pattern=pt.decode('latin-1'), form=form),
                               f'fnmatch.filter(all 256 single bytes, {pt!r}, RAWCHARS|CASE|DOTMATCH) -> {got if isinstance(got, str) else got[:4]} instead of [{bytes([v])!r}]',
                               f"import sys; sys.path.insert(0, {REPO!r})\nfrom wcmatch import fnmatch\ngot = fnmatch.filter([bytes([v]) for v in range(256)], {pt!r}, flags=fnmatch.R | fnmatch.C | fnmatch.D)\nprint(got)\nsys.exit(0 if got == [{bytes([v])!r}] else 1)\n")
+    # bytes >= 0x80 in DIRECTORY and file names: Latin-1 code units, matched per byte (brackets, ranges, POSIX classes, ?)
+    import tempfile
+    import shutil
+    tmpd = tempfile.mkdtemp(prefix='c18-').encode()
+    try:
+        names = [b'\xe9d/f.txt', b'\xf5d/f.txt', b'zd/f.txt', b'\xe0d/\xe9.txt', b'ad/g']
+        for nm in names:
+            os.makedirs(os.path.join(tmpd, os.path.dirname(nm)), exist_ok=True)
+            open(os.path.join(tmpd, nm), 'w').close()
+        import re as _re
+        for pt, rx in ((b'\xe9d/*', b'\xe9d/[^/]+'), (b'[\xe0-\xef]d/*', b'[\xe0-\xef]d/[^/]+'), (b'[!\xe9z]d/*', b'[^\xe9z/]d/[^/]+'), (b'?d/f.txt', b'[^/]d/f\\.txt'),
+                       (b'\xe0d/\xe9*', b'\xe0d/\xe9[^/]*'), (b'*d/[\xe0-\xff].txt', b'[^/]*d/[\xe0-\xff]\\.txt'), (b'**/\xe9*', b'(.*/)?\xe9[^/]*'), (b'[[:alpha:]\xf5]d/f*', b'[a-zA-Z\xf5]d/f[^/]*'),
+                       (b'{\xe9,\xf5}d/*', b'[\xe9\xf5]d/[^/]+'), (b'\xe9d/', b'\xe9d/')):
+            n += 1
+            chk.case(key=('tree-nonascii', pt))
+            every = [d + b'/' for d in (b'\xe9d', b'\xf5d', b'zd', b'\xe0d', b'ad')] + names + [b'\xe9d', b'\xf5d', b'zd', b'\xe0d', b'ad']
+            want = sorted(x for x in every if _re.fullmatch(rx, x, _re.S) and (x.endswith(b'/') == pt.endswith(b'/')))
+            try:
+                got = sorted(G.glob(pt, flags=G.G | G.B | G.U, root_dir=tmpd))
+            except Exception as e:
+                got = f'{type(e).__name__}: {e}'
+            if got != want:
+                chk.violation(dict(obligation='C18.bounded.glob_non_ASCII_bytes_are_Latin-1_code_units', pattern=pt.decode('latin-1'), witness=pt.decode('latin-1')),
+                              f'glob({pt!r}, GLOBSTAR|BRACE) on a tree with the names {names}: {got} instead of {want}',
+                              f"import sys, os, tempfile; sys.path.insert(0, {REPO!r})\nfrom wcmatch import glob\nd = tempfile.mkdtemp().encode()\nfor nm in {names!r}:\n    os.makedirs(os.path.join(d, os.path.dirname(nm)), exist_ok=True); open(os.path.join(d, nm), 'w').close()\n"
+                              f"got = sorted(glob.glob({pt!r}, flags=glob.G | glob.B | glob.U, root_dir=d))\nprint(got)\nsys.exit(0 if got == {want!r} else 1)\n")
+    finally:
+        shutil.rmtree(tmpd, ignore_errors=True)
     # glob / WcMatch on trees with str vs bytes roots: same paths in the same order
     for tname in ('basic', 'links') if tier == 'quick' else trees.NAMED:
         with trees.Tree(trees.NAMED[tname]) as t:
